@@ -24,6 +24,65 @@ def proj_outcome(o):
     return "P" if is_panic(o) else o
 
 
+ERROR_KINDS = [
+    ("No mock implementation found", "NoMockImplementation"),
+    ("No function supplied for matching inputs", "NoMatcherFunction"),
+    ("No matching call patterns", "NoMatchingCallPatterns"),
+    ("No output available for after matching", "NoOutputAvailable"),
+    ("was never called", "MockNeverCalled"),
+    ("Method matched in wrong order", "CallOrderNotMatched"),
+    ("out of range: There were no more ordered call patterns", "CallOrderOutOfRange"),
+    ("Method invoked in the correct order", "InputsNotMatchedInCallOrder"),
+    ("Cannot return value more than once", "CannotReturnValueMoreThanOnce"),
+    ("cannot be unmocked as there is no function available", "CannotUnmock"),
+    ("has not been set up with default implementation delegation", "NoDefaultImpl"),
+    ("did not apply the answer function", "NotAnswered"),
+    ("Explicit panic from", "ExplicitPanic"),
+    ("to match exactly", "FailedVerification:exactly"),
+    ("to match at least", "FailedVerification:atleast"),
+    ("clones still alive", "ClonesAlive"),
+    ("destroyed on a different thread", "WrongThread"),
+    ("Called verify() on a cloned instance", "VerifyOnClone"),
+    ("Called no_verify_on_drop() on a cloned instance", "NvidOnClone"),
+]
+
+
+def error_kind(line):
+    for needle, kind in ERROR_KINDS:
+        if needle in line:
+            return kind
+    return "Other:" + line[:40]
+
+
+def proj_outcome_kind(o):
+    """a call's outcome: the value, or (kind of mock error, what it names)"""
+    if is_panic(o):
+        ls = msg_lines(o)
+        return ("P", error_kind(ls[0]), tokens(ls[0]))
+    return o
+
+
+def proj_verdict_kind(o):
+    if is_panic(o):
+        return ("P", tuple(sorted((error_kind(l), tokens(l)) for l in msg_lines(o))))
+    return o
+
+
+def proj_kinds(case, obs):
+    """like proj_default, but panics keep their error kind and the names they mention"""
+    if not obs or obs[0] != "new:ok":
+        return [("new", "P") if o.startswith("new:P:") else o.split(" ")[0] for o in obs[:1]]
+    out = ["new:ok"]
+    for e, o in zip(case["events"], obs[1:]):
+        if e["base"][0] == "call":
+            out.append(proj_outcome_kind(o))
+        else:
+            out.append(proj_verdict_kind(o))
+    if len(obs) - 1 != len(case["events"]):
+        out.append(("LENGTH", len(obs) - 1))
+    return out
+
+
 def proj_verdict(o):
     """verification outcome: silent / exit code / the multiset of what each line names"""
     if is_panic(o):
